@@ -1,0 +1,10 @@
+//go:build verif
+
+// Contracts for Set (read as text by /verif's govc; comment-only). The three
+// one-line methods are executed at their call sites (inline) on the map model.
+
+package set
+
+//@ inline func (s Set[T]) Add(elements ...T) Set[T]
+//@ inline func (s Set[T]) Remove(elements ...T) Set[T]
+//@ inline func (s Set[T]) Contains(element T) bool
